@@ -32,7 +32,7 @@ def norm_src(src):
     return r.strip() if isinstance(r, str) else r
 
 COVERED_TEMPLATES = {0, 1, 2, 5, 6, 7, 8, 12, 13, 14}
-UNCOVERED_OPS = ("set_mref", "del_mref", "rename_space", "set_param", "eval_item", "allow_none", "new_cells_src",
+UNCOVERED_OPS = ("rename_space", "set_param", "eval_item", "allow_none", "new_cells_src",
                  "new_cells_obj", "set_formula_obj", "set_param_obj", "new_space_obj")
 
 
@@ -56,7 +56,10 @@ def short(res):
 class EditCorr:
     """one per history; feeds the persistent `edit` driver incrementally and compares after every operation"""
 
-    def __init__(self):
+    def __init__(self, objrefs=False):
+        # objrefs: a reference whose value is a space is not an operation of the machine (it models what is read
+        # THROUGH the space, not the reference to it); only the scenario families that never rebind it set this
+        self.objrefs = objrefs
         self.intern = Interner()
         self.by_src = {}            # normalised source -> template tuple
         self.sent_defs = set()
@@ -92,13 +95,28 @@ class EditCorr:
         """payload of the cells `path.name` as it is now; None when its formula is outside the vocabulary"""
         c = live.space(path).cells[name]
         t = self.by_src.get(norm_src(c.formula.source if c.formula is not None else None))
-        if t is None or t[0] not in COVERED_TEMPLATES:
+        if t is None:
             return None
-        key = ("c", t[0], t[1], t[2], t[3], bool(c.is_cached))
+        a = t[2]
+        if t[0] == 3 and self.objrefs:
+            # `{c}.{r}`: covered when `{c}` is a REFERENCE of the space to a top-level space (the same space for
+            # every sub space); the machine gets the path of that space and the attribute slot
+            sp = live.space(path)
+            tgt = sp.refs.get(t[4]) if t[4] in sp.refs and t[4] not in sp.spaces else None
+            if tgt is None or type(tgt).__name__ != "UserSpace" or tgt.parent is not live.m:
+                return None
+            a = tgt.name
+            pre.append("slot %s %s" % (a, t[3]))
+        elif t[0] == 16:
+            for p_, _s in W.all_spaces(live.m):
+                pre.append("slot %s %s" % (p_, t[3]))
+        elif t[0] not in COVERED_TEMPLATES:
+            return None
+        key = ("c", t[0], t[1], a, t[3], bool(c.is_cached))
         pid = self.intern(key)
         if pid not in self.sent_defs:
             self.sent_defs.add(pid)
-            pre.append("def %d %d %d %d %s %s" % (pid, int(bool(c.is_cached)), t[0], t[1], t[2], t[3]))
+            pre.append("def %d %d %d %d %s %s" % (pid, int(bool(c.is_cached)), t[0], t[1], a, t[3]))
         return pid
 
     def rpay(self, value, pre):
@@ -119,6 +137,8 @@ class EditCorr:
                 self.noop = bool(live.space(op[1]).cells[op[2]].is_cached) == bool(op[3])
             elif op[0] in ("set_ref", "del_ref"):
                 self.pre_kind = api.name_kind(live, op[1], op[2])
+            elif op[0] == "del_mref":
+                self.pre_kind = "space" if op[1] in live.m.spaces else None
             elif op[0] == "del_space" and isinstance(op[1], str):
                 par, _, nm = op[1].rpartition(".")
                 self.pre_kind = api.name_kind(live, par, nm, model_level=not par)
@@ -222,6 +242,20 @@ class EditCorr:
                 line, want = "addbases %s %s" % (op[1], csv(op[2])), "acc" if acc else "rej"
             elif kind == "remove_bases":
                 line, want = "rmbases %s %s" % (op[1], csv(op[2])), "acc" if acc else "rej"
+            elif kind == "set_mref":
+                if not isinstance(op[1], str) or is_obj(op[2]) or not isinstance(op[2], int) or isinstance(op[2], bool):
+                    if acc:
+                        self.end(k, kind)
+                    return
+                line, want = "setglobal %s %d" % (op[1], self.rpay(op[2], pre) if acc else 0), "acc" if acc else "rej"
+            elif kind == "del_mref":
+                if self.pre_kind == "space":
+                    line = "delspace %s" % op[1]
+                else:
+                    line = "delglobal %s" % op[1]
+                want = "acc" if acc else "rej"
+            elif kind == "set_ref" and self.objrefs and is_obj(op[3]) and acc:
+                return
             elif kind == "set_ref":
                 if is_obj(op[3]) or not isinstance(op[3], int) or isinstance(op[3], bool) or (len(op) > 4 and op[4] != "auto"):
                     if acc:
@@ -359,12 +393,52 @@ def scenarios():
     return cases
 
 
-def run_history(ops, out, stats):
+def shadow_scenarios():
+    """Scenario family "a name changes what it denotes through an edit ELSEWHERE" x "how the reader spelled it": a
+    model-level reference `x`; a space `S`; readers of `x` as seen from `S`: by bare name (`S.f`), as `_space.x`
+    (`S.g`), through another space (`T.c = S.x`, `S` a reference of `T` to the space) - cached / uncached; everything
+    evaluated; then ONE edit that makes `x` in `S` denote something else - an own reference of `S`, a reference
+    DERIVED into `S` through a new base (defined before or after the evaluation), the model-level reference
+    changed / deleted, the shadowing reference deleted / the base removed - ; everything evaluated again."""
+    F = lambda i, k=1, a="f", r="r", c="S": (i, k, a, r, c)     # noqa
+    edits = [
+        [["add_bases", "S", ["B"]]],
+        [["set_ref", "S", "r", 7]],
+        [["set_mref", "r", 4]],
+        [["del_mref", "r"]],
+        [["del_mref", "r"], ["set_mref", "r", 6]],
+        [["add_bases", "S", ["B"]], ["evalall"], ["remove_bases", "S", ["B"]]],
+        [["set_ref", "S", "r", 7], ["evalall"], ["del_ref", "S", "r"]],
+        [["add_bases", "S", ["B"]], ["evalall"], ["set_mref", "r", 9]],
+        [["add_bases", "S", ["B"]], ["evalall"], ["del_ref", "B", "r"]],
+        [["add_bases", "S", ["B"]], ["evalall"], ["set_ref", "B", "r", 8]],
+        [["new_space", "-", "A", []], ["set_ref", "A", "r", 3], ["add_bases", "B", ["A"]], ["add_bases", "S", ["B"]]],
+        [["set_ref", "S2", "r", 2]],
+        [["add_bases", "S2", ["B"]]],
+    ]
+    cases = []
+    for cached in (1, 0):
+        for bx in ("before", "none"):
+            base = [["set_mref", "r", 1], ["new_space", "-", "B", []], ["new_space", "-", "S", []],
+                    ["new_space", "-", "S2", []], ["new_space", "-", "T", []],
+                    ["set_ref", "T", "S", ("obj", "S")], ["set_ref", "T", "S2", ("obj", "S2")]]
+            if bx == "before":
+                base.append(["set_ref", "B", "r", 5])
+            base += [["new_cells", "S", "f", F(2)], ["new_cells", "S", "g", F(16)], ["new_cells", "T", "c", F(3)],
+                     ["new_cells", "T", "c2", F(3, 1, "f", "r", "S2")], ["new_cells", "T", "d", F(1, 1, "c")]]
+            if not cached:
+                base += [["set_cached", "S", "g", 0], ["set_cached", "T", "c", 0]]
+            for e in edits:
+                cases.append([list(o) for o in base] + [["evalall"]] + [list(o) for o in e] + [["evalall"]])
+    return cases
+
+
+def run_history(ops, out, stats, objrefs=False):
     from . import struct_props as S
     from .impl import close_all
     close_all()
     live = W.Live("M")
-    ec = EditCorr()
+    ec = EditCorr(objrefs=objrefs)
     hist_of = lambda k: S.hist_json(ops, k)      # noqa
     try:
         for k, op in enumerate(ops):
@@ -393,6 +467,11 @@ def run_family(ctx, out, n_quick=90, n_thorough=2500, ops_range=(14, 30)):
     pool = covered_motifs()
     for ops in scenarios():
         run_history(ops, out, stats)
+        if out.disagreements:
+            return stats
+    for ops in shadow_scenarios():
+        run_history(ops, out, stats, objrefs=True)
+        stats["edit_shadow_scenarios"] += 1
         if out.disagreements:
             return stats
     for i in range(ctx.n(n_quick, n_thorough)):
